@@ -14,7 +14,7 @@ Property text (full strength), kept here for comparison with what is proved:
    operation, applied once or in any sequence."
 Proved below for the model: `call_frame` (one call), `call_fresh` + `copy_result_mutation_frame` (copies), and
 `frame_history` (any sequence, any interleaving with the client changing copies it received), instantiated for the
-code's table in `frame_history_opTable`.  Narrowed by: the two converters of finding N14a (`n14a_counterexample`).
+code's table — the full table, no exclusion — in `frame_history_opTable`.
 Not a theorem (observed): that the code's operations have the signatures of `opTable`.
 -/
 import Reamber.Lemmas.Effects
@@ -138,6 +138,16 @@ theorem step_preserves_inv (T : List Sig) (hpure : ∀ s ∈ T, s.writes = [])
             exact Nat.not_le.mpr hr (heq ▸ this)
       · simp at hst
     · simp at hst
+  | alloc news =>
+    simp only [step] at hst
+    injection hst with hst
+    subst hst
+    refine ⟨?_, ?_, hres⟩
+    · simp only [List.length_append]; omega
+    · intro r hr
+      simp only []
+      rw [List.getElem?_append_left (by omega)]
+      exact hget r hr
 
 theorem run_preserves_inv (T : List Sig) (hpure : ∀ s ∈ T, s.writes = [])
     (hcopy : ∀ s ∈ T, s.copy = true → s.shares = [])
@@ -208,28 +218,20 @@ theorem opTable_covers_listed :
     (∀ n ∈ listedOps, ∃ s, lookup n = some s ∧ s.name = n ∧ s.copy = true) ∧ (opTable.map (·.name)).Nodup := by
   decide
 
-/-- every signature marked `copy` shares nothing — except the two converters of finding N14a, which hand out
-the source chart's `tags` list -/
-theorem opTable_copy_fresh :
-    ∀ s ∈ opTable, s.copy = true → s.shares = [] ∨ (s.name ∈ n14aOps ∧ s.shares = [(0, "tags")]) := by decide
+/-- every signature marked `copy` shares nothing -/
+theorem opTable_copy_fresh : ∀ s ∈ opTable, s.copy = true → s.shares = [] := by decide
 
-theorem opTableNoN14a_pure : ∀ s ∈ opTableNoN14a, s.writes = [] := by decide
-
-theorem opTableNoN14a_copy_fresh : ∀ s ∈ opTableNoN14a, s.copy = true → s.shares = [] := by decide
-
-/-- **C14 for the code's table** (hypothesis: the history does not call the two converters of finding N14a).
-Any history over the listed operations — filter/sort/append/move/copy, rate, the other 15 converter entry points,
-the four writers, full_ln, hitsound_copy, sv_normalize, scroll_speed, dominant_bpm, pattern extraction — and the
-two sharing controls, with the client changing copies in between, leaves every cell of the initial heap as it was,
-and no copy reaches into the initial heap. -/
+/-- **C14 for the code's table.**  Any history over the listed operations — filter/sort/append/move/copy, rate, the 17
+converter entry points, the four writers, full_ln, hitsound_copy, sv_normalize, scroll_speed, dominant_bpm, pattern
+extraction — and the two sharing controls, with the client changing copies in between, leaves every cell of the
+initial heap as it was, and no copy reaches into the initial heap. -/
 theorem frame_history_opTable (h₀ : Heap α) (es : List (Event α)) (st' : State α)
-    (hrun : run opTableNoN14a { heap := h₀, results := [] } es = some st') :
+    (hrun : run opTable { heap := h₀, results := [] } es = some st') :
     FrameHolds h₀ st'.heap (List.range h₀.length) ∧ ∀ p ∈ st'.results, p.1 = true → Fresh h₀.length p.2 :=
-  ⟨frame_history _ opTableNoN14a_pure opTableNoN14a_copy_fresh h₀ es st' hrun,
-   fresh_history _ opTableNoN14a_pure opTableNoN14a_copy_fresh h₀ es st' hrun⟩
+  ⟨frame_history _ opTable_pure opTable_copy_fresh h₀ es st' hrun,
+   fresh_history _ opTable_pure opTable_copy_fresh h₀ es st' hrun⟩
 
-/-- the first half needs no exclusion: no call of ANY operation of the table changes a cell of its arguments
-(only the client's later change of a shared `tags` list can) -/
+/-- one call of any operation of the table changes no cell of its arguments -/
 theorem call_frame_opTable {s : Sig} (hs : s ∈ opTable) {args : List Obj} (h : Heap α) {b : Beh α}
     (hw : b.within s h.length args = true) (hv : validArgs h.length args = true) :
     FrameHolds h (applyBeh h b) (reach args) :=
@@ -248,14 +250,15 @@ theorem sv_normalize_writes_counterexample :
   rw [← frameB_iff]
   decide
 
-/-- **N14a (open).** `OsuToQua.convert` / `QuaToOsu.convert` assign `result.tags = source.tags`: the table gives
-them `shares = [(0, "tags")]`.  A legal history — convert, then the client appends to the result's tags — changes
-a cell of the initial heap. -/
+/-- **D38 (repaired in the source, kept as the reason for `copy → shares = []`).** With the signature
+`OsuToQua.convert` / `QuaToOsu.convert` had as they were written (`result.tags = source.tags`), a legal history —
+convert, then the client appends to the result's tags — changes a cell of the initial heap. -/
 theorem n14a_counterexample :
     ∃ (h₀ : Heap Nat) (es : List (Event Nat)) (st' : State Nat),
-      run opTable { heap := h₀, results := [] } es = some st' ∧ ¬ FrameHolds h₀ st'.heap (List.range h₀.length) := by
+      run [converterSharingTags "conv.OsuToQua.convert"] { heap := h₀, results := [] } es = some st' ∧
+      ¬ FrameHolds h₀ st'.heap (List.range h₀.length) := by
   refine ⟨[7, 8],
-    [.call (converterSig "conv.OsuToQua.convert") [[("", 0), ("tags", 1)]] { writes := [], news := [70], ret := [2, 1] },
+    [.call (converterSharingTags "conv.OsuToQua.convert") [[("", 0), ("tags", 1)]] { writes := [], news := [70], ret := [2, 1] },
      .mutate 0 [(1, 9)]],
     { heap := [7, 9, 70], results := [(true, [2, 1])] }, by decide, ?_⟩
   rw [← frameB_iff]
@@ -268,7 +271,9 @@ theorem n14a_counterexample :
   * its writers are exactly the games whose chart class has `write`;
   * every operation the table marks as a deep copy (converters aside) is one whose source body makes a copy
     (`deepcopy`/`.deepcopy()`), and `sv_normalize` copies the tempo frame (D17's repair);
-  * the converters the table lets share `tags` are exactly those whose source assigns `x.tags = y.tags`. -/
+  * `TimedList.__deepcopy__` exists and copies the objects held in object columns (D39's repair: the table's
+    `deep` copies share no cell objects);
+  * no converter's source assigns `x.tags = y.tags` (D38's repair: the table lets no converter share anything). -/
 theorem source_tie :
     (∀ n ∈ converterOps, n ∈ Generated.Effects.converterOps) ∧
     (∀ n ∈ Generated.Effects.converterOps, n ∈ converterOps) ∧
@@ -276,14 +281,14 @@ theorem source_tie :
     writerOps = Generated.Effects.writerOps ∧
     (∀ s ∈ opTable, s.deep = true → s.name ∈ converterOps ∨ (s.name, true) ∈ Generated.Effects.makesCopy) ∧
     ("alg.sv_normalize", true) ∈ Generated.Effects.makesCopy ∧
-    (∀ n ∈ n14aOps, n ∈ Generated.Effects.assignsTags) ∧
-    (∀ n ∈ Generated.Effects.assignsTags, n ∈ n14aOps) := by decide
+    ("list.__deepcopy__.object_columns", true) ∈ Generated.Effects.makesCopy ∧
+    Generated.Effects.assignsTags = [] := by decide
 
 /-! ## non-vacuity -/
 
 /-- a legal three-event history over the code's table: filter a list, deep-copy a chart, change the copy -/
 example :
-    (run opTableNoN14a ({ heap := [1, 2, 3], results := [] } : State Nat)
+    (run opTable ({ heap := [1, 2, 3], results := [] } : State Nat)
       [.call (lookup "list.after").get! [[("", 0), ("_df", 1)]] { writes := [], news := [4, 5], ret := [3, 4] },
        .call (lookup "map.deepcopy").get! [[("", 2)]] { writes := [], news := [6], ret := [5] },
        .mutate 1 [(5, 60)]]).map (·.heap) = some [1, 2, 3, 4, 5, 60] := by decide
